@@ -478,6 +478,8 @@ impl World {
             Ev::PskProbe { psk, psk_id } => self.ev_psk_probe(psk, psk_id, cov),
             Ev::RawOpen { r, ct, aad, tag } => self.ev_raw_open(*r, ct, aad, tag.as_ref().map(|t| &t.0[..]), cov),
             Ev::On { inner, .. } => self.apply(inner, cov),
+            Ev::RejectBurst { r, from, n } => self.ev_reject_burst(*r, *from, *n, cov),
+            Ev::TeardownUnwinding { c, role } => self.ev_teardown_unwinding(*c, *role, cov),
             Ev::StripZerosProbe { r, from } => self.ev_strip_zeros(*r, *from, cov),
             Ev::SingleShotOpenRaw { cfg, kr, ks, enc, ct, aad, tag } => self.ev_single_shot_open_raw(cfg, *kr, *ks, enc, ct, aad, tag.as_ref().map(|t| &t.0[..]), cov),
         }
